@@ -222,6 +222,11 @@ pub fn validate(x: &[u8], emitted: bool) -> Vec<Broken> {
         return out; // the payload rules need a sound header
     }
     let h = &main.hdr;
+    // the lead says "source package" exactly when the header does (rpm writes the lead from the header)
+    let is_source = h.entries.iter().any(|e| e.tag == 1106);
+    if (lead.ptype == 1) != is_source {
+        out.push(b("LEAD-6", format!("lead type {} but the header {} a source package", lead.ptype, if is_source { "marks" } else { "does not mark" })));
+    }
     let payload = &x[hdr_off + main.len..];
     // ---- payload
     let compressor = match first(h, 1125) {
@@ -413,6 +418,7 @@ pub fn self_test() -> Result<usize, String> {
         ("LEAD-1", raw(Box::new(|x, _| x[0] = 0))),
         ("LEAD-2", raw(Box::new(|x, _| x[4] = 9))),
         ("LEAD-3", raw(Box::new(|x, _| x[7] = 2))),
+        ("LEAD-6", raw(Box::new(|x, _| x[7] = 1))),
         ("LEAD-4", raw(Box::new(|x, _| x[79] = 1))),
         ("LEAD-5", raw(Box::new(|x, _| x[10..76].iter_mut().for_each(|b| *b = b'x')))),
         ("HDR-1", raw(Box::new(|x, l| x[l.hdr_off + 2] = 0))),
